@@ -17,8 +17,9 @@ from .. import build, core
 from . import c09_gen as G
 
 UNIVERSE = list(range(-2, 6))
-BIG = [2**31 - 1, 2**31, 2**32 - 1, 2**32, 2**63 - 1, 2**63, 2**64 - 1, 2**64,
+BIG = [2**31 - 1, 2**31, 2**32 - 1, 2**32, 2**63 - 1, 2**63, 2**64 - 2,
        -2**31, -2**31 - 1, -2**63, -2**63 - 1, 255, 256, 65535, 65536, 127, 128, -128, -129, 32767, 32768, -32768, -32769]
+BIG_EDGE = BIG + [2**64 - 1, 2**64]
 SIZE_BIG = [255, 256, 65535, 65536, 65537, 16383, 16384, 2**31 - 1, 2**32]
 
 TYPES = {   # ty token -> (ASN.1 text, kind)
@@ -166,14 +167,14 @@ def gen_cases(ctx):
            ("serial", lambda a, b: [[spec(a), spec(b)]]),
            ("ref", lambda a, b: [[spec(a)], [spec(b)]]),
            ("adds", lambda a, b: [[spec(a, True, b)]])]
-    n_pairs = 260 if quick else len(pairs)
+    n_pairs = 1000 if quick else len(pairs)
     def legal(a, b):
         ev = G.evaluate("int", [[spec(a), spec(b)]]); return not ev.illegal
     legal_pairs = None
     for tag, f in ops:
         sel = pairs if not quick else rng.sample(pairs, n_pairs)
         if quick and tag in ("serial", "ref"):
-            if legal_pairs is None: legal_pairs = [pr for pr in rng.sample(pairs, 1500) if legal(*pr)]
+            if legal_pairs is None: legal_pairs = [pr for pr in pairs if legal(*pr)]
             sel = rng.sample(legal_pairs, min(len(legal_pairs), n_pairs - 40)) + rng.sample(pairs, 40)
         if not quick and tag == "ref": sel = rng.sample(pairs, len(pairs) // 3)
         if tag == "adds": sel = rng.sample(pairs, 12 if quick else 200)
@@ -181,14 +182,22 @@ def gen_cases(ctx):
             add("INTEGER", f(a, b), "d1-" + tag)
     pairsN = [(a, b) for a in AN for b in AN]
     for tag, f in ops:
-        for a, b in rng.sample(pairsN, (6 if quick else 60) if tag == "adds" else (60 if quick else 600)):
+        for a, b in rng.sample(pairsN, (6 if quick else 60) if tag == "adds" else (200 if quick else len(pairsN))):
             lv = f(a, b)
             ty = rng.choice(["OCTET", "OCTET", "BITSTR", "UTF8"])
             add(ty, [[sizeify(rng, s) for s in l] for l in lv], "d1-size-" + tag)
 
+    def mostly_sane(kind, mk):
+        """steer away from the F92 region: redraw (most) trees with an empty operand"""
+        for _ in range(6):
+            lv = mk()
+            ev = G.evaluate(kind, lv)
+            if not (ev.degenerate or ev.vis.empty()) or rng.random() < 0.12: return lv
+        return lv
+    scale = 1 if quick else 25
     # 3. random deeper trees (depth 2-3, width 2-3), chains of specs and references
-    n = 1300 if quick else 30000
-    for _ in range(n):
+    n = 5200 * scale
+    def mk_int():
         nlev = rng.choice([1, 1, 1, 2, 2, 3])
         levels = []
         for li in range(nlev):
@@ -202,11 +211,12 @@ def gen_cases(ctx):
                 elif t < 0.125: lv.append(spec(e, True, rand_e(rng, UNIVERSE, 1)))
                 else: lv.append(spec(e))
             levels.append(lv)
-        add("INTEGER", levels, "rand")
-    n = 450 if quick else 10000
+        return levels
     for _ in range(n):
+        add("INTEGER", mostly_sane("int", mk_int), "rand")
+    n = 1800 * scale
+    def mk_size(ty):
         nlev = rng.choice([1, 1, 2])
-        ty = rng.choice(["OCTET", "OCTET", "BITSTR", "SEQOF", "SETOF", "UTF8"])
         levels = []
         for li in range(nlev):
             ns = 1 if (ty in ("SEQOF", "SETOF") and li == 0) else rng.choice([1, 1, 2])
@@ -218,11 +228,14 @@ def gen_cases(ctx):
                 s = spec(e, True) if t < 0.15 else spec(e, True, rand_e(rng, [0, 1, 2, 3, 4, 5, 6, 7], 0)) if t < 0.16 else spec(e)
                 lv.append(sizeify(rng, s))
             levels.append(lv)
-        add(ty, levels, "rand-size")
+        return levels
+    for _ in range(n):
+        ty = rng.choice(["OCTET", "OCTET", "BITSTR", "SEQOF", "SETOF", "UTF8"])
+        add(ty, mostly_sane("size", lambda: mk_size(ty)), "rand-size")
 
     # 4. 64-bit boundary values
-    n = 500 if quick else 12000
-    for _ in range(n):
+    n = 2000 * scale
+    def mk_big():
         nlev = rng.choice([1, 1, 2])
         levels = []
         for li in range(nlev):
@@ -231,11 +244,13 @@ def gen_cases(ctx):
                 e = rand_e(rng, UNIVERSE, rng.choice([0, 0, 1, 2]), big=BIG)
                 lv.append(spec(e, rng.random() < 0.1))
             levels.append(lv)
-        add("INTEGER", levels, "big")
-    for _ in range(150 if quick else 3000):
+        return levels
+    for _ in range(n):
+        add("INTEGER", mostly_sane("int", mk_big), "big")
+    for _ in range(600 * scale):
         e = rand_e(rng, [0, 1, 2, 3], rng.choice([0, 0, 1]), lo_ok=True, big=SIZE_BIG)
         add(rng.choice(["OCTET", "BITSTR", "SEQOF"]), [[sizeify(rng, spec(e, rng.random() < 0.1))]], "big-size")
-    for v in BIG:
+    for v in BIG_EDGE:
         for d in (-1, 0, 1):
             add("INTEGER", [[spec(('r', 0, v + d))]] if v + d >= 0 else [[spec(('r', v + d, 0))]], "big-edge")
             add("INTEGER", [[spec(('r', -(v + d) - 1 if v + d >= 0 else v + d, abs(v + d)))]], "big-edge")
@@ -377,7 +392,8 @@ def run_chunk(asn1c, tmp, idx, cases, stats):
 def model_lines(c):
     ct = c.ct
     k = c.kind
-    return [("accepts", "accepts %s %s" % (c.ty, ct)),
+    extra = [("toct", "toct " + c.cons)] if c.cons else []
+    return extra + [("accepts", "accepts %s %s" % (c.ty, ct)),
             ("prac", "crange prac %s %s %s" % (k, c.ty, ct)),
             ("oer", "crange oer %s %s %s" % (k, c.ty, ct)),
             ("per", "crange per %s %s %s" % (k, c.ty, ct)),
@@ -388,6 +404,8 @@ def model_lines(c):
 def c_expected(c, key):
     """what the C side says for the model's line `key`"""
     st = c.c.get("status")
+    if key == "toct":
+        return c.ct          # python's parser/pull-up mimic, itself tied to asn1c by the other lines
     if key == "accepts":
         return "ok" if st == "ok" else st if st == "eperm" else "abort" if st == "crash" else st
     if st != "ok": return None
@@ -403,7 +421,7 @@ def p_check(c):
     d = c.c
     fails = []
     kind = c.kind
-    if ev.degenerate: return fails
+    if ev.vis.empty() or ev.oer_vis.empty(): return fails
     if c.ct == "null":       # no table emitted = the built-in default of the base type
         d = dict(d)
         d["pertab_int"], d["pertab_size"], d["oertab"] = tables_of(c)
@@ -455,10 +473,11 @@ def classify(c, fails):
     """known-finding region of a failing case, or None"""
     ev = c.ev
     if ev.has_additions: return "F11"
-    if ev.ext and ev.vis.lb() is None and all(f[0].startswith("per table") for f in fails): return "F34"
-    if ev.multi_own_ext: return "F31"
+    if ev.degenerate: return "F92"
+    if ev.ext and ev.vis.lb() is None and all(f[0].startswith("per table") for f in fails): return "F94"
+    if ev.multi_own_ext: return "F91"
     big = G.sample_points(c.levels)
-    if any(f[0] == "oer table" for f in fails) and len(fails) == 1 and max(big) > 2**64: return "F33"
+    if any(f[0] == "oer table" for f in fails) and len(fails) == 1 and max(big) > 2**64: return "F93"
     return None
 
 # ------------------------------------------------------------------------------ run
@@ -489,6 +508,7 @@ def run(ctx):
         c.name = ("T%d" if c.kind == "int" else "S%d") % i
         c.text = " ; ".join(type_text(c, c.name, li) for li in range(len(c.levels)))
         c.ct = G.sexp(G.combined(c.levels))
+        c.cons = G.cons_chain(c.levels) if c.levels and c.levels[0] else None
         c.ev = G.evaluate(c.kind, c.levels)
     ctx.log("generated %d types" % len(cases))
 
@@ -544,11 +564,11 @@ def run(ctx):
                                "by_type": {t: sum(1 for c in cases if c.ty == t) for t in TYPES}}
 
     # ---- P leg
-    pf = []; np_ = 0; skipped = {"degenerate": 0, "nested-ext": 0, "rejected": 0}
+    pf = []; np_ = 0; skipped = {"degenerate": 0, "nested-ext": 0, "rejected": 0}   # degenerate = the type denotes the empty set
     for c in cases:
         if c.c.get("status") != "ok":
             skipped["rejected"] += 1; continue
-        if c.ev.degenerate:
+        if c.ev.vis.empty() or c.ev.oer_vis.empty():
             skipped["degenerate"] += 1; continue
         if c.ev.nested_ext:
             skipped["nested-ext"] += 1; continue
